@@ -249,6 +249,20 @@ fn shapes_case<T: Sc>(rng: &mut Rng, case: u64, out: &mut CaseOut, orders: usize
                     violation(out, stream, case, format!("build() returned Err({kind}) but the violated requirements are {spec:?}"), detail());
                     return;
                 }
+                // the error that names the length requirement must name the lengths that were compared:
+                // the model's output length and the number of rows of the observations in effect
+                if kind == "InvalidLengthOfData" {
+                    let field = |name: &str| -> Option<usize> {
+                        let at = k.find(name)? + name.len();
+                        k[at..].trim_start_matches([':', ' ']).split(|ch: char| !ch.is_ascii_digit()).next()?.parse().ok()
+                    };
+                    let y_eff = plan.ops.iter().rev().find_map(|o| if let Op::Obs(y) = o { Some(y.r) } else { None }).unwrap_or(0);
+                    out.count("length_error_payloads_checked");
+                    if field("x_length") != Some(n) || field("y_length") != Some(y_eff) {
+                        violation(out, stream, case, format!("build() returned {k} but the model has output length {n} and the observations in effect have {y_eff} rows"), detail());
+                        return;
+                    }
+                }
                 if spec.len() == 1 {
                     out.nontrivial.push(crate::rng::hash_u64s([case, ord as u64, 1]));
                 }
@@ -334,7 +348,7 @@ fn threshold_case<T: Sc>(rng: &mut Rng, case: u64, out: &mut CaseOut) {
 }
 
 pub fn run(ctx: &Ctx) {
-    ctx.rule("shapes-and-orders: exhaustive grid model length 0..12 x Y rows 0..12 x columns 0..4 (1 for the single right-hand-side constructors) x weights {absent, len=rows, len=model length, other 0..13} x the four constructors (new, mrhs, new_parallel, mrhs_parallel), each with 3 (quick) / 8 (thorough) call orders (permutations of observations/weights/epsilon and repetitions whose earlier values must be overwritten), occasionally without any observations call; verdict Ok <=> the specification's set of violated requirements is empty, Err(kind) => kind in the set; accepted problems: params() == model's initial parameters (bitwise), residuals/coefficients present, identical to an explicit set_params(initial), identical across call orders (bitwise, incl. weighted data). threshold: one-column model with singular value exactly s / one ulp above: epsilon(±s), no call (machine epsilon), repeated calls (last wins). non-trivial = accepted problems and rejections with exactly one violated requirement");
+    ctx.rule("shapes-and-orders: exhaustive grid model length 0..12 x Y rows 0..12 x columns 0..4 (1 for the single right-hand-side constructors) x weights {absent, len=rows, len=model length, other 0..13} x the four constructors (new, mrhs, new_parallel, mrhs_parallel), each with 3 (quick) / 8 (thorough) call orders (permutations of observations/weights/epsilon and repetitions whose earlier values must be overwritten), occasionally without any observations call; verdict Ok <=> the specification's set of violated requirements is empty, Err(kind) => kind in the set, and an InvalidLengthOfData error must carry the model's output length and the row count of the observations in effect; accepted problems: params() == model's initial parameters (bitwise), residuals/coefficients present, identical to an explicit set_params(initial), identical across call orders (bitwise, incl. weighted data). threshold: one-column model with singular value exactly s / one ulp above: epsilon(±s), no call (machine epsilon), repeated calls (last wins). non-trivial = accepted problems and rejections with exactly one violated requirement");
     *ctx.exhaustive.lock().unwrap() = Some(true);
     let t = ctx.tier;
     let orders = t.pick(3, 16);
